@@ -194,7 +194,50 @@ def replay(job, res, ob):
     return R.replay_best(n, order, dom)
 
 
+PERM_LEMMA = r'''
+#include "yv.h"
+#define N 6
+/* C06 lemma over best()'s contract: whatever order the candidates are presented in, any two results that satisfy
+   P1-P4 agree on "no definition / this definition / ambiguous".  dom is an arbitrary irreflexive asymmetric
+   relation over the candidate set {0..n-1}; R and R' are arbitrary sets of candidates (as membership bits) with
+   their sizes - the postconditions only speak about the candidate SET, never about positions. */
+void h_perm_lemma(void)
+{
+    size_t n = nondet_size_t(); __CPROVER_assume(n <= N);
+    _Bool dom[N][N]; _Bool inR[N], inS[N];
+    for (size_t i = 0; i < N; ++i) for (size_t j = 0; j < N; ++j) { dom[i][j] = nondet_bool(); }
+    for (size_t i = 0; i < N; ++i) for (size_t j = 0; j < N; ++j) __CPROVER_assume(!(dom[i][j] && dom[j][i]));
+    size_t nR = 0, nS = 0;
+    for (size_t i = 0; i < N; ++i) { inR[i] = nondet_bool(); inS[i] = nondet_bool();
+        if (i >= n) { inR[i] = 0; inS[i] = 0; }            /* P4: results are candidates (distinctness = set membership) */
+        nR += inR[i]; nS += inS[i]; }
+    /* P3 */
+    __CPROVER_assume((nR == 0) == (n == 0)); __CPROVER_assume((nS == 0) == (n == 0));
+    for (size_t d = 0; d < N; ++d) {
+        if (d >= n) continue;
+        _Bool dominates_all = 1;
+        for (size_t j = 0; j < N; ++j) if (j < n && j != d && !dom[d][j]) dominates_all = 0;
+        /* P1: a single result dominates every other candidate */
+        if (nR == 1 && inR[d]) __CPROVER_assume(dominates_all);
+        if (nS == 1 && inS[d]) __CPROVER_assume(dominates_all);
+        /* P2: a dominating candidate is the single result */
+        if (dominates_all) { __CPROVER_assume(nR == 1 && inR[d]); __CPROVER_assume(nS == 1 && inS[d]); }
+    }
+    __CPROVER_assert((nR == 0) == (nS == 0) && (nR == 1) == (nS == 1) && (nR > 1) == (nS > 1),
+                     "C06 the outcome class (no definition / one definition / ambiguous) does not depend on the order of the candidates");
+    for (size_t d = 0; d < N; ++d)
+        if (nR == 1 && inR[d]) __CPROVER_assert(inS[d], "C06 the selected definition does not depend on the order of the candidates");
+    YV_COVER(n == N && nR == 1, "unique winner among six");
+    YV_COVER(n == 5 && nR == 3 && nS == 2, "ambiguous, results of different sizes");
+}
+'''
+
+
 def jobs(tier):
+    out_lemma = [Job(unit='best', config='order-independence-lemma', c_text=PERM_LEMMA, entry='h_perm_lemma', kind='proof', unwind=8,
+                     min_obligations=2, min_cover=2, props=['C06'],
+                     note='lemma over the postconditions P1-P4 of best() for candidate sets of up to 6 definitions (no repository code)',
+                     assumptions=['more-specific relation irreflexive and asymmetric (specificity/dom-lemmas)'])]
     nc = 5 if tier == 'thorough' else 4
     ex, c = make(nc)
     j = Job(unit='best', config='bounded-nc%d' % nc, c_text=c, entry='h_best',
@@ -210,4 +253,4 @@ def jobs(tier):
             extracted=[ex], replay=replay, timeout=900,
             props=['C01', 'C03', 'C06'])
     j.nc = nc
-    return [j]
+    return [j] + out_lemma
